@@ -22,6 +22,7 @@ class RecDom(RecorderDomain):
         self.variant = kw.pop('variant', 'idle')
         RecorderDomain.__init__(self, *a, **kw)
         self.at_calls = []      # (node, target, state) for selected labels, for rules that inspect call-site states
+        self.at_enters = []     # (node, state after parameter binding) for inlined record-output calls
 
     def initial_states(self):
         st = RecorderDomain.initial_states(self)[0]
@@ -32,6 +33,13 @@ class RecDom(RecorderDomain):
         elif self.variant == 'playback':
             st.env[('F', 'self', r.playback)] = PLAYBACK
         return [st]
+
+    def e_Subscript(self, e, frame, state):
+        # reads of the invocation counter carry the number of increments made so far on this path
+        if _self_attr(e.value) == self.roles.counter:
+            idx = self.eval(e.slice, frame, state)
+            return sym(('counter-read', state.extra.get(('n', 'counter-inc'), 0), idx.name))
+        return RecorderDomain.e_Subscript(self, e, frame, state)
 
     def is_active_recording(self, v):
         return v.kind == 'obj' and v.name in (('active-recording',), ('created-recording',))
@@ -83,7 +91,7 @@ class RecDom(RecorderDomain):
         if lab == 'iface:TapeCassette.abort_recording' and node.frame.func is self.roles.discard:
             st = st.bump(('n', 'discard-abort'))
         if lab in ('iface:TapeCassette.save_recording', 'iface:TapeCassette.abort_recording',
-                   'iface:Recording.add_metadata') or lab.startswith('libobj:random.Random.random'):
+                   'iface:Recording.add_metadata', 'ctor:Playback') or lab.startswith('libobj:random.Random.random'):
             self.at_calls.append((node, t, st, state))
         if lab.startswith('libobj:random.Random.random'):
             st = st.bump(('n', 'draw'))
@@ -127,6 +135,9 @@ class RecDom(RecorderDomain):
             return state.with_extra(decision='keep' if keep else 'drop')
         if node.kind == 'leave' and node.info.get('mode') == 'value' and node.info['callee'].func is self.roles.sampler:
             return state.with_extra(decision='value')
+        if node.kind == 'enter' and node.info['callee'].func is self.roles.record_output:
+            self.at_enters.append((node, state))
+            return state.bump(('n', 'enter:record_output'))
         if node.kind == 'enter' and node.info['callee'].func is self.roles.executor:
             return state.bump(('n', 'enter:executor'))
         if node.kind == 'enter' and node.info['callee'].func is self.roles.reader:
